@@ -432,6 +432,62 @@ func Nest(rng *fw.Rng, W int64) Poly {
 	return p
 }
 
+// Lobes: a shell that a sub-pixel neck pinches into two lobes whose bounding boxes overlap: a block with a hole, and a
+// staircase-shaped lobe that stands beside the block and hangs over it. After snapping at the level where a pixel is 4 q the
+// neck closes and the result has two outer rings; the hole must go to the block although every one of its vertices also lies
+// inside the staircase's bounding box, in the columns of the staircase's vertical edges. All dimensions random, any of the 8
+// symmetries of the square.
+func Lobes(rng *fw.Rng, W int64) Poly {
+	o := func() int64 { return int64(1 + rng.Intn(3)) } // offset inside a pixel (q)
+	at := func(col, row int64) P { return P{4*col + o(), 4*row + o()} }
+	bw := int64(12 + rng.Intn(19))     // block: columns 3..bw
+	bh := int64(4 + rng.Intn(4))       // block: rows 0..bh
+	s1 := int64(5 + rng.Intn(3))       // first riser of the staircase (column)
+	s2 := s1 + int64(3+rng.Intn(6))    // second riser
+	a := bh + 1 + int64(3+rng.Intn(4)) // row of the first step
+	top := a + int64(4+rng.Intn(6))
+	if s2 >= bw {
+		s2 = bw - 1
+	}
+	nl, nr := int64(16+1), int64(16+3) // the neck: both sides in pixel column 4
+	shell := []P{at(3, 0), at(bw, 0), at(bw, bh), {nr, 4*bh + 2}, {nr, 4*(bh+1) + 2},
+		at(s1, bh+1), at(s1, a), at(s2, a), at(s2, top), at(0, top), at(0, 0), at(1, 0), at(1, bh+1),
+		{nl, 4*(bh+1) + 2}, {nl, 4*bh + 2}, at(3, bh)}
+	var hole []P
+	r0 := int64(1 + rng.Intn(int(bh-2)))
+	switch rng.Intn(4) {
+	case 0, 1: // thin triangle with its vertices in the riser columns
+		hole = []P{at(s1, r0), at(s1, r0+1), at(s2, r0+1)}
+	case 2: // box between the riser columns
+		hole = []P{at(s1, r0), at(s2, r0), at(s2, r0+1), at(s1, r0+1)}
+	default: // anywhere in the block
+		c0 := 5 + rng.Int63n(bw-8)
+		hole = []P{at(c0, r0), at(c0+1+rng.Int63n(3), r0), at(c0+rng.Int63n(3), r0+1)}
+	}
+	p := Poly{shell, hole}
+	if rng.Chance(1, 4) {
+		p = Poly{shell}
+	}
+	S := 4*max(bw, top) + 4
+	k, mirror := rng.Intn(4), rng.Bool()
+	for ri := range p {
+		for vi, v := range p[ri] {
+			x, y := v[0], v[1]
+			if mirror {
+				x = S - x
+			}
+			for r := 0; r < k; r++ {
+				x, y = S-y, x
+			}
+			p[ri][vi] = P{x, y}
+		}
+		st := rng.Intn(len(p[ri]))
+		p[ri] = append(append([]P{}, p[ri][st:]...), p[ri][:st]...)
+	}
+	_ = W
+	return p
+}
+
 // Degenerate: rings of 0, 1 or 2 points, rings repeating one point, polygons without rings (C06 only).
 func Degenerate(rng *fw.Rng, W int64) Poly {
 	if rng.Chance(1, 12) {
@@ -665,6 +721,8 @@ func ByName(name string, rng *fw.Rng, W int64) Poly {
 		return Moat(rng, W)
 	case "nest":
 		return Nest(rng, W)
+	case "lobes":
+		return Lobes(rng, W)
 	case "degenerate":
 		return Degenerate(rng, W)
 	case "big":
